@@ -55,6 +55,32 @@ fn from_canonical(sort: usize) {
     cover!(x > 1);
 }
 
+/// A sparse three-entry map `[root, x, y]` (x < y symbolic): canonical universes 1 and 2 go back to
+/// x and y; canonical universes beyond the recorded range (an implicit `forall` in the answer) map
+/// above every recorded universe, in order: 3 -> y + 1, 4 -> y + 2.
+fn sparse_and_out_of_range(sort: usize) {
+    let x = sym::usize();
+    let y = sym::usize();
+    sym::assume(0 < x && x < y && y < usize::MAX - 4);
+    let idx = sym::usize();
+    let m = UniverseMap { universes: vec![u(0), u(x), u(y)] };
+    let c = Canonical {
+        value: subst(&[leaf(sort, 1, idx), leaf(sort, 2, idx), leaf(sort, 3, idx), leaf(sort, 4, idx)]),
+        binders: CanonicalVarKinds::empty(I),
+    };
+    let back = m.map_from_canonical(I, &c);
+    let got = back.value.as_slice(I);
+    assert!(got[0] == leaf(sort, x, idx), "C16: canonical universe 1 of a sparse map");
+    assert!(got[1] == leaf(sort, y, idx), "C16: canonical universe 2 of a sparse map");
+    assert!(got[2] == leaf(sort, y + 1, idx), "C16: out-of-range canonical universe must map above every recorded universe");
+    assert!(got[3] == leaf(sort, y + 2, idx), "C16: out-of-range canonical universes keep their order");
+    std::mem::forget(m);
+    cover!(y > x + 1);
+}
+
+vharness!(c16_q_sparse_ty, 8, { sparse_and_out_of_range(0) });
+vharness!(c16_q_sparse_lifetime, 8, { sparse_and_out_of_range(1) });
+vharness!(c16_q_sparse_const, 8, { sparse_and_out_of_range(2) });
 vharness!(c16_q_from_canonical_ty, 8, { from_canonical(0) });
 vharness!(c16_q_from_canonical_lifetime, 8, { from_canonical(1) });
 vharness!(c16_q_from_canonical_const, 8, { from_canonical(2) });
